@@ -9,7 +9,7 @@ from ..loader import AnalysisError
 from ..segments import NINF, PINF, Domain, Iv, SegEval, Vec, contains
 from ..terms import K, ONE, S, T_add, T_sub, ZERO, show, show_norm, subterms
 from .c20 import validator_constraints
-from .common import Context
+from .common import Context, backing_attr
 from .problemterms import ACTION, EVENT, STATE, cfgsym, problem_interp, transition_terms
 from .solverterms import brief
 
@@ -62,9 +62,9 @@ def closure(ctx, cls, dom, inst=None):
     I, nxt, _rew = transition_terms(ctx, cls, inst)
     se = SegEval(I, dom, {})
     try:
-        st = se.columns(I.attrs["_state_space"])
-        ac = se.columns(I.attrs["_action_space"])
-        evs = se.columns(I.attrs["_random_event_space"])
+        st = se.columns(I.attrs[backing_attr(ctx, cls, "state_space")])
+        ac = se.columns(I.attrs[backing_attr(ctx, cls, "action_space")])
+        evs = se.columns(I.attrs[backing_attr(ctx, cls, "random_event_space")])
     except KeyError as e:
         raise AnalysisError(f"anchor vanished: {cls.name} space attribute {e}") from e
     se.spaces = {STATE: st, ACTION: ac, EVENT: evs}
@@ -150,7 +150,7 @@ def _dist(t, ix):
 def _index(ctx, cls, I, col):
     owner, fn = ctx.ct.require(cls, "state_to_index")
     t = I.call_method("state_to_index", [STATE])
-    sp = I.attrs["_state_space"]
+    sp = I.attrs[backing_attr(ctx, cls, "state_space")]
     if cls.name == "Forest":
         ok = t == I.elem(STATE, ZERO) and sp == ("app", "arange", (cfgsym("S"),))
         col.add("R14.2", "Forest.state_to_index", owner.module.relpath, fn.lineno, ok,
